@@ -75,6 +75,17 @@ func runRootFields(c *Ctx) {
 	if fn := c.MustFunc("(*Mast).MakeRoot"); fn != nil {
 		recv := fn.Params[0]
 		a, _ := fxReturnedAlloc(fn, "Root")
+		var linkParam ssa.Value
+		if a == nil {
+			// the Root is built by a private helper: follow it, with its
+			// receiver standing for MakeRoot's and its parameter for flush's result
+			if h, hr, hl := rootHelper(c, fn, recv); h != nil {
+				a, _ = fxReturnedAlloc(h, "Root")
+				if a != nil {
+					fn, recv, linkParam = h, hr, hl
+				}
+			}
+		}
 		if a == nil {
 			c.Undecided(fn, c.P.Pos(fn.Pos()), "returned Root", "cannot find the Root MakeRoot returns")
 		} else {
@@ -94,7 +105,7 @@ func runRootFields(c *Ctx) {
 					continue
 				}
 				if rf == "Link" {
-					checkMakeRootLink(c, fn, sts)
+					checkMakeRootLink(c, fn, sts, linkParam)
 					continue
 				}
 				for _, s := range sts {
@@ -204,7 +215,64 @@ func runRootFields(c *Ctx) {
 	}
 }
 
-func checkMakeRootLink(c *Ctx, fn *ssa.Function, sts []fxFieldStore) {
+// rootHelper: MakeRoot's success returns yield the result of one static
+// in-repo helper; returns the helper, its parameter bound to MakeRoot's
+// receiver and its parameter bound to the name flush returned (nil if none).
+func rootHelper(c *Ctx, fn *ssa.Function, recv *ssa.Parameter) (*ssa.Function, *ssa.Parameter, ssa.Value) {
+	flush := c.P.MastFunc("(*Mast).flush")
+	fromFlush := func(v ssa.Value) bool {
+		v = fxStripNoConv(v)
+		if u, ok := v.(*ssa.UnOp); ok && u.Op == token.MUL {
+			if a, ok := u.X.(*ssa.Alloc); ok {
+				if st := ir.SingleStore(a); st != nil {
+					v = fxStripNoConv(st.Val)
+				}
+			}
+		}
+		e, ok := v.(*ssa.Extract)
+		if !ok || e.Index != 0 {
+			return false
+		}
+		call, ok := e.Tuple.(*ssa.Call)
+		return ok && flush != nil && ir.Callee(call.Call) == flush
+	}
+	var call *ssa.Call
+	for _, r := range fxSuccessReturns(fn) {
+		if len(r.Results) == 0 {
+			return nil, nil, nil
+		}
+		cl, idx := fxCallOf(r.Results[0])
+		if cl == nil || idx != 0 || (call != nil && cl != call) {
+			return nil, nil, nil
+		}
+		call = cl
+	}
+	if call == nil {
+		return nil, nil, nil
+	}
+	h := ir.Callee(call.Call)
+	if h == nil || !fxOwnFunc(h) {
+		return nil, nil, nil
+	}
+	var hr *ssa.Parameter
+	var hl ssa.Value
+	for i, a := range call.Call.Args {
+		if i >= len(h.Params) {
+			break
+		}
+		if ir.ResolveCell(a) == ssa.Value(recv) {
+			hr = h.Params[i]
+		} else if fromFlush(a) {
+			hl = h.Params[i]
+		}
+	}
+	if hr == nil {
+		return nil, nil, nil
+	}
+	return h, hr, hl
+}
+
+func checkMakeRootLink(c *Ctx, fn *ssa.Function, sts []fxFieldStore, linkParam ssa.Value) {
 	flush := c.P.MastFunc("(*Mast).flush")
 	isLinkCell := func(a *ssa.Alloc) bool {
 		// the address is taken on purpose (it becomes Root.Link); only the
@@ -221,6 +289,9 @@ func checkMakeRootLink(c *Ctx, fn *ssa.Function, sts []fxFieldStore) {
 			return false
 		}
 		for _, s := range stores {
+			if linkParam != nil && fxStripNoConv(s.Val) == linkParam {
+				continue // the helper's parameter that carries flush's result
+			}
 			call, idx := fxCallOf(s.Val)
 			if call == nil || idx != 0 || flush == nil || ir.Callee(call.Call) != flush {
 				return false
@@ -230,6 +301,9 @@ func checkMakeRootLink(c *Ctx, fn *ssa.Function, sts []fxFieldStore) {
 	}
 	isLink := func(v ssa.Value) bool {
 		v = fxStripNoConv(v)
+		if linkParam != nil && v == linkParam {
+			return true
+		}
 		if u, ok := v.(*ssa.UnOp); ok && u.Op == token.MUL {
 			if a, ok := u.X.(*ssa.Alloc); ok {
 				return isLinkCell(a)
@@ -924,7 +998,73 @@ func byteSliceParam(fn *ssa.Function) *ssa.Parameter {
 			return p
 		}
 	}
+	// the reader idiom: a pointer to a struct holding the buffer and the
+	// number of bytes consumed so far
+	for _, p := range fn.Params {
+		if readerBufField(p.Type()) >= 0 {
+			return p
+		}
+	}
 	return nil
+}
+
+// readerBufField: t is *struct with exactly one []byte field (the buffer) and
+// an int field (the offset); returns the index of the buffer field, else -1.
+func readerBufField(t types.Type) int {
+	pt, ok := t.Underlying().(*types.Pointer)
+	if !ok {
+		return -1
+	}
+	st, ok := pt.Elem().Underlying().(*types.Struct)
+	if !ok {
+		return -1
+	}
+	bufIdx, nBuf, nInt := -1, 0, 0
+	for i := 0; i < st.NumFields(); i++ {
+		ft := st.Field(i).Type()
+		if isByteSlice(ft) {
+			bufIdx = i
+			nBuf++
+		} else if b, ok := ft.Underlying().(*types.Basic); ok && b.Kind() == types.Int {
+			nInt++
+		}
+	}
+	if nBuf != 1 || nInt < 1 {
+		return -1
+	}
+	return bufIdx
+}
+
+// readerRest: v is the unconsumed rest r.buf[r.off:] of reader r — directly,
+// or as the result of a static in-repo method of r that returns it.
+func readerRest(v ssa.Value, r ssa.Value, depth int) bool {
+	v = fxStripNoConv(v)
+	if sl, ok := v.(*ssa.Slice); ok && sl.High == nil && sl.Low != nil {
+		bb, bp, ok1 := fxFieldLoad(sl.X)
+		ob, op, ok2 := fxFieldLoad(sl.Low)
+		if ok1 && ok2 && bb == r && ob == r && bp != op {
+			_, isInt := sl.Low.Type().Underlying().(*types.Basic)
+			return isInt && isByteSlice(sl.X.Type())
+		}
+		return false
+	}
+	if call, idx := fxCallOf(v); call != nil && idx == 0 && depth < 2 {
+		callee := ir.Callee(call.Call)
+		if callee == nil || !fxOwnFunc(callee) || len(call.Call.Args) == 0 || ir.ResolveCell(call.Call.Args[0]) != r || len(callee.Params) == 0 {
+			return false
+		}
+		rets := ir.Returns(callee)
+		if len(rets) == 0 {
+			return false
+		}
+		for _, ret := range rets {
+			if len(ret.Results) != 1 || !readerRest(ret.Results[0], callee.Params[0], depth+1) {
+				return false
+			}
+		}
+		return true
+	}
+	return false
 }
 
 // lengthDecoder: fn reads a varint from its buffer parameter. Returns the
@@ -936,8 +1076,10 @@ func lengthDecoder(fn *ssa.Function) string {
 	buf := byteSliceParam(fn)
 	for _, c := range staticCallsIn(fn) {
 		n := fxFullName(ir.Callee(c.Call))
-		if (n == "encoding/binary.Uvarint" || n == "encoding/binary.Varint") && buf != nil && len(c.Call.Args) == 1 && fxStripNoConv(c.Call.Args[0]) == ssa.Value(buf) {
-			return n
+		if (n == "encoding/binary.Uvarint" || n == "encoding/binary.Varint") && buf != nil && len(c.Call.Args) == 1 {
+			if fxStripNoConv(c.Call.Args[0]) == ssa.Value(buf) || (!isByteSlice(buf.Type()) && readerRest(c.Call.Args[0], buf, 0)) {
+				return n
+			}
 		}
 	}
 	return ""
@@ -1313,11 +1455,58 @@ func runCodecSym(c *Ctx) {
 			var got []visit
 			var decodeCalls []*ssa.Call
 			idx := 0
-			for steps := 0; steps < 8 && cur != nil; steps++ {
+			// the reader idiom: the decode steps are the method calls on one
+			// local reader built over buf, in execution order
+			var readerCalls []*ssa.Call
+			threaded := false
+			for _, cl := range staticCallsIn(dec) {
+				if len(cl.Call.Args) > 0 && cl.Call.Args[0] == cur {
+					threaded = true
+				}
+			}
+			if !threaded {
+				for _, b := range dec.Blocks {
+					for _, ins := range b.Instrs {
+						al, ok := ins.(*ssa.Alloc)
+						if !ok || readerBufField(al.Type()) < 0 {
+							continue
+						}
+						fs, _ := fxStructStores(al)
+						overBuf := false
+						for _, f := range fs {
+							if fxStripNoConv(f.Val) == ssa.Value(buf) {
+								overBuf = true
+							}
+						}
+						if !overBuf {
+							continue
+						}
+						for _, cl := range staticCallsIn(dec) {
+							if len(cl.Call.Args) > 0 && cl.Call.Args[0] == ssa.Value(al) && sliceDecoder(ir.Callee(cl.Call)) != nil {
+								readerCalls = append(readerCalls, cl)
+							}
+						}
+					}
+				}
+				sort.SliceStable(readerCalls, func(i, j int) bool { return ir.Before(readerCalls[i], readerCalls[j]) })
+				for i := 0; i+1 < len(readerCalls); i++ {
+					if !ir.Before(readerCalls[i], readerCalls[i+1]) {
+						c.Undecided(dec, c.P.InstrPos(readerCalls[i+1]), "decode order", "the list decodes on the reader are not totally ordered by dominance")
+					}
+				}
+			}
+			for steps := 0; steps < 8 && (cur != nil || steps < len(readerCalls)); steps++ {
 				var call *ssa.Call
-				for _, cl := range staticCallsIn(dec) {
-					if len(cl.Call.Args) > 0 && cl.Call.Args[0] == cur {
-						call = cl
+				if len(readerCalls) > 0 {
+					if steps >= len(readerCalls) {
+						break
+					}
+					call = readerCalls[steps]
+				} else {
+					for _, cl := range staticCallsIn(dec) {
+						if len(cl.Call.Args) > 0 && cl.Call.Args[0] == cur {
+							call = cl
+						}
 					}
 				}
 				if call == nil {
@@ -2068,7 +2257,43 @@ func lengthPrimCheck(c *Ctx, dec *ssa.Function) {
 		if !bad {
 			c.OK(c.P.Pos(fn.Pos()), "length primitive only in "+fn.Name(), "length = Uvarint #0, rest = buf[Uvarint #1:] on every path", false)
 		}
-		lenBoundCheck(c, fn, uv, buf)
+		// the bound is taken against the very bytes Uvarint read
+		lenBoundCheck(c, fn, uv, fxStripNoConv(uv.Call.Args[0]))
+		// the reader idiom: the consumed count advances by exactly Uvarint #1
+		if !isByteSlice(buf.Type()) {
+			n := 0
+			for _, b := range fn.Blocks {
+				for _, ins := range b.Instrs {
+					st, ok := ins.(*ssa.Store)
+					if !ok {
+						continue
+					}
+					base, _, ok := fxFieldAddr(st.Addr)
+					if !ok || base != ssa.Value(buf) {
+						continue
+					}
+					if _, isInt := st.Val.Type().Underlying().(*types.Basic); !isInt || isByteSlice(st.Val.Type()) {
+						continue
+					}
+					n++
+					bin, isBin := st.Val.(*ssa.BinOp)
+					okAdv := false
+					if isBin && bin.Op == token.ADD {
+						lb, lp, ok1 := fxFieldLoad(bin.X)
+						_, sp, _ := fxFieldAddr(st.Addr)
+						okAdv = ok1 && lb == ssa.Value(buf) && lp == sp && fromUv(bin.Y, 1)
+					}
+					if okAdv {
+						c.OK(c.P.InstrPos(st), "reader advance in "+fn.Name(), "offset += the byte count binary.Uvarint consumed", false)
+					} else {
+						c.Violation(fn, c.P.InstrPos(st), "reader advance", "after reading a length the reader's offset becomes "+ir.Sym(st.Val)+", not offset + the byte count binary.Uvarint consumed: the following bytes are read from the wrong position")
+					}
+				}
+			}
+			if n == 0 {
+				c.Violation(fn, c.P.Pos(fn.Pos()), "reader advance", "the reader's offset is not advanced past the length that was read")
+			}
+		}
 	}
 }
 
@@ -2086,7 +2311,7 @@ const armLenBound = true
 // dominated by a comparison of that result with a quantity derived from
 // len(buf) whose failing side reaches only error returns. The bound is a
 // run-time quantity, not a constant.
-func lenBoundCheck(c *Ctx, fn *ssa.Function, uv *ssa.Call, buf *ssa.Parameter) {
+func lenBoundCheck(c *Ctx, fn *ssa.Function, uv *ssa.Call, buf ssa.Value) {
 	isK := func(v ssa.Value) bool {
 		e, ok := fxStrip(v).(*ssa.Extract)
 		return ok && e.Tuple == ssa.Value(uv) && e.Index == 0
@@ -2100,7 +2325,7 @@ func lenBoundCheck(c *Ctx, fn *ssa.Function, uv *ssa.Call, buf *ssa.Parameter) {
 		if sl, isSl := a.(*ssa.Slice); isSl {
 			a = fxStripNoConv(sl.X)
 		}
-		return a == ssa.Value(buf)
+		return a == buf
 	}
 	// the narrowing conversions of k
 	var convs []*ssa.Convert
@@ -2701,7 +2926,7 @@ func (e linForm) String() string {
 // linearRemaining reduces v to a linear form over len(buf) and the number of
 // bytes binary.Uvarint consumed (its result #1): conversions are transparent,
 // + and - are followed, len(buf[used:]) is len(buf) - used.
-func linearRemaining(v ssa.Value, buf *ssa.Parameter, uv *ssa.Call) (linForm, bool) {
+func linearRemaining(v ssa.Value, buf ssa.Value, uv *ssa.Call) (linForm, bool) {
 	v = fxStrip(v)
 	if k := fxConst(v); k != nil && k.Kind() == constant.Int {
 		if n, exact := constant.Int64Val(k); exact {
@@ -2714,10 +2939,10 @@ func linearRemaining(v ssa.Value, buf *ssa.Parameter, uv *ssa.Call) (linForm, bo
 	}
 	if a, ok := lenArg(v); ok {
 		a = fxStripNoConv(a)
-		if a == ssa.Value(buf) {
+		if a == buf {
 			return linForm{cL: 1}, true
 		}
-		if sl, ok := a.(*ssa.Slice); ok && fxStripNoConv(sl.X) == ssa.Value(buf) && sl.High == nil && sl.Max == nil {
+		if sl, ok := a.(*ssa.Slice); ok && fxStripNoConv(sl.X) == buf && sl.High == nil && sl.Max == nil {
 			if sl.Low == nil {
 				return linForm{cL: 1}, true
 			}
